@@ -8,6 +8,7 @@ COQ_MODULE = "Prop_C10"
 THEOREMS = ['C10_every_history_relaxed', 'C10_no_panic_no_poison', 'C10_guard_panic_poisons', 'C10_own_scoped_panic_poisons', 'C10_poisoned_still_acquires', 'C10_refuted_scoped_collection', "C10_every_schedule_never_killed"]
 CASE_MODULES = ["Pf_Hist", "Monitors", "Conc", "BMonitors"]
 CHECK_WITHOUT_PROOF = True
+SHRINK_GUARD = 0      # which of the booleans evaluated with the verdict certifies the theorem's hypotheses
 TRUSTED = common.TRUSTED_COMMON
 ASSUMPTIONS = common.ASSUME_COMMON
 RULE = 'random API histories (1-3 threads, 4-14 calls, API-call-atomic) over a random universe of single locks, poisonable wrappers and collections of every kind / container / nesting depth <= 2 sharing leaves, with random holds of other threads present from the start; vocabulary adds panics with a live guard, panicking closures, is_poisoned, clear_poison; observation = is_poisoned of every wrapper after every call + Ok/Err seen at every wrapper position; non-trivial = history contains a panic and a Poisonable; distinct = scenario text; plus interleaved (Level B) programs of 2-4 threads over poisonable roots, most of which panic with a live guard or inside a closure while others wait for the same locks: the Ok / Err of every acquisition must agree with the panics that unwound exclusive holds before it was granted (BMonitors.v mon_C10b)'
